@@ -453,6 +453,13 @@ impl C06 {
     }
 }
 
+impl C06 {
+    pub fn new_cached() -> &'static C06 {
+        static C: std::sync::OnceLock<C06> = std::sync::OnceLock::new();
+        C.get_or_init(C06::new)
+    }
+}
+
 impl Property for C06 {
     type Case = Case;
     fn id(&self) -> &'static str {
